@@ -35,7 +35,7 @@ def _cfg(tier, overrides=None):
     from .explore import Config
     if tier == "thorough":
         return Config(tier=tier, check_timeout_ms=60000, branch_timeout_ms=10000, max_paths=8000)
-    return Config(tier=tier, check_timeout_ms=15000, branch_timeout_ms=4000)
+    return Config(tier=tier, check_timeout_ms=30000, branch_timeout_ms=4000)
 
 
 def _load(modname, tier, overrides_key=None, overrides=None):
@@ -130,8 +130,17 @@ def slug(s):
     return re.sub(r"[^A-Za-z0-9_.-]+", "_", s)
 
 
+def load_timings():
+    """wall seconds of each harness in an earlier run (tools/gen_timings.py): scheduling order and automatic sharding"""
+    try:
+        return json.load(open(os.path.join(VERIF, "timings.json")))
+    except Exception:
+        return {}
+
+
 def run_check(prop, tier, seed, jobs=None, overrides=None, quiet=False, repo=REPO, only=None):
     t0 = time.time()
+    timings = load_timings()
     jobs = jobs or min(16, os.cpu_count() or 4)
     mods = [m for m in contract_modules() if module_mentions(m, prop)]
     ov_key = None
@@ -152,8 +161,13 @@ def run_check(prop, tier, seed, jobs=None, overrides=None, quiet=False, repo=REP
             if shards > 1:
                 for k in range(shards):
                     tasks.append((modname, name, tier, ov_key, overrides, (k, shards)))
+            elif timings.get(name, 0) > 60:
+                n = min(8, int(timings[name] // 40) + 1)       # slow harness: split by the first decisions of a path
+                for k in range(n):
+                    tasks.append((modname, name, tier, ov_key, overrides, (k, n, "prefix", 8)))
             else:
                 tasks.append((modname, name, tier, ov_key, overrides))
+    tasks.sort(key=lambda t: -timings.get(t[1], 30))      # longest first
     results = []
     budget = int(os.environ.get("PYVC_TASK_TIMEOUT", "0") or 0) or (600 if tier == "quick" else 7200)
     for t, status, res in run_parallel(run_task, tasks, jobs, budget):
